@@ -209,7 +209,8 @@ pub fn statement_for(q: &J, jpath: &str, tdef: &str) -> String {
         if q["having"]["h"] != "none" { s += &format!(" HAVING {}", having(&q["having"])); }
     }
     let lim = q["limit"].as_i64().unwrap();
-    if lim >= 0 { s += &format!(" LIMIT {}", lim); }
+    // 2000000001 / 2000000002 stand for i64::MAX / 2^62 (TLC integers are 32-bit): "LIMIT <huge>" is the idiom for "everything"
+    if lim >= 0 { s += &format!(" LIMIT {}", match lim { 2000000001 => i64::MAX, 2000000002 => 1i64 << 62, x => x }); }
     s
 }
 
